@@ -462,35 +462,46 @@ unsafe fn do_spawn<F: PreExec>(
     if child_pid == 0 {
         // Executing as child process
         drop(read_guard);
-        if let Some(fd) = theirs.stdin.fd() {
-            rusl::unistd::dup2(fd, STDIN)?;
-        }
-        if let Some(fd) = theirs.stdout.fd() {
-            rusl::unistd::dup2(fd, STDOUT)?;
-        }
-        if let Some(fd) = theirs.stderr.fd() {
-            rusl::unistd::dup2(fd, STDERR)?;
-        }
-        if let Some(cwd) = cwd {
-            rusl::unistd::chdir(cwd)?;
-        }
-        if let Some(uid) = uid {
-            rusl::unistd::setuid(uid)?;
-        }
-        if let Some(gid) = gid {
-            rusl::unistd::setgid(gid)?;
-        }
-        if let Some(pgroup) = pgroup {
-            rusl::unistd::setpgid(0, pgroup)?;
-        }
-        for closure in closures {
-            closure.run()?;
-        }
-        let Err(e) = rusl::process::execve(bin, argv, envp) else {
-            // execve only returns on error.
-            unreachable_unchecked();
+        // Nothing may return from here, that would run the caller's code in the child.
+        // A step that fails is reported to the parent through the pipe, like a failed exec.
+        let setup: Result<()> = (|| {
+            if let Some(fd) = theirs.stdin.fd() {
+                rusl::unistd::dup2(fd, STDIN)?;
+            }
+            if let Some(fd) = theirs.stdout.fd() {
+                rusl::unistd::dup2(fd, STDOUT)?;
+            }
+            if let Some(fd) = theirs.stderr.fd() {
+                rusl::unistd::dup2(fd, STDERR)?;
+            }
+            if let Some(cwd) = cwd {
+                rusl::unistd::chdir(cwd)?;
+            }
+            if let Some(uid) = uid {
+                rusl::unistd::setuid(uid)?;
+            }
+            if let Some(gid) = gid {
+                rusl::unistd::setgid(gid)?;
+            }
+            if let Some(pgroup) = pgroup {
+                rusl::unistd::setpgid(0, pgroup)?;
+            }
+            for closure in closures {
+                closure.run()?;
+            }
+            Ok(())
+        })();
+        let e: Error = match setup {
+            Ok(()) => {
+                let Err(e) = rusl::process::execve(bin, argv, envp) else {
+                    // execve only returns on error.
+                    unreachable_unchecked();
+                };
+                e.into()
+            }
+            Err(e) => e,
         };
-        let code: [u8; 4] = if let Some(code) = e.code {
+        let code: [u8; 4] = if let Error::Os { code, .. } = e {
             code.raw().to_be_bytes()
         } else {
             rusl::process::exit(1)
